@@ -92,13 +92,20 @@ fn sv(bytes: &[u8]) -> SerializedValue {
 
 fn rt<T>(b: &[u8]) -> Result<Vec<u8>, String>
 where
-    T: PrimaryTag + Deserialize<T::Tag>,
+    T: PrimaryTag + Deserialize<T::Tag> + Serialize<T::Tag>,
     for<'a> &'a T: Serialize<T::Tag>,
 {
     let v: T = sv(b).deserialize_as::<T::Tag, T>().map_err(|e| format!("{:?}", e))?;
     let out = SerializedValue::serialize_as::<T::Tag>(&v).map_err(|e| format!("serialize: {:?}", e))?;
     let s: &[u8] = out.as_ref();
-    Ok(s.to_vec())
+    let by_ref = s.to_vec();
+    // the by-value implementation must write the same bytes as the by-reference one
+    let out2 = SerializedValue::serialize_as::<T::Tag>(v).map_err(|e| format!("BYVALUE serialize by value fails: {:?}", e))?;
+    let s2: &[u8] = out2.as_ref();
+    if s2 != &by_ref[..] {
+        return Err(format!("BYVALUE by-ref {} by-value {}", hex(&by_ref), hex(s2)));
+    }
+    Ok(by_ref)
 }
 
 fn unhex(s: &str) -> Vec<u8> {
@@ -387,6 +394,10 @@ impl C16 {
                             ],
                             fallback: None,
                         }),
+                        ADef::Newtype { pre: Prelude::default(), name: "KeyC".into(), ty: AType::U32 },
+                        ADef::Newtype { pre: Prelude::default(), name: "KeyB".into(), ty: AType::Named("KeyC".into()) },
+                        ADef::Newtype { pre: Prelude::default(), name: "KeyS".into(), ty: AType::String },
+                        ADef::Newtype { pre: Prelude::default(), name: "KeyS2".into(), ty: AType::Named("KeyS".into()) },
                         ADef::Enum(AEnum {
                             pre: Prelude::default(),
                             name: "Choice".into(),
@@ -411,6 +422,50 @@ impl C16 {
                 items.push(Item { idx, schema, text, gen_code: code });
                 continue;
             }
+            if idx == 1 && items.len() == 1 {
+                // fixed shapes across a schema boundary: newtype chains used as keys, imported
+                // types in every position
+                use crate::schema::gen::{AField, AStruct, AType, Prelude};
+                let ext = |n: &str| AType::Extern("s0".into(), n.into());
+                let f = |name: &str, id: u32, required: bool, ty: AType| AField { pre: Prelude::default(), name: name.into(), id, required, ty };
+                let schema = ASchema {
+                    name: "s1".into(),
+                    header: vec![],
+                    imports: vec![(vec![], "s0".into())],
+                    defs: vec![
+                        ADef::Newtype { pre: Prelude::default(), name: "KeyA".into(), ty: ext("KeyB") },
+                        ADef::Newtype { pre: Prelude::default(), name: "KeyA2".into(), ty: AType::Named("KeyA".into()) },
+                        ADef::Newtype { pre: Prelude::default(), name: "Wrapped".into(), ty: ext("Holder") },
+                        ADef::Struct(AStruct {
+                            pre: Prelude::default(),
+                            name: "UsesKeys".into(),
+                            fields: vec![
+                                f("m", 1, true, AType::Map(Box::new(AType::Named("KeyA".into())), Box::new(AType::U8))),
+                                f("s", 2, true, AType::Set(Box::new(AType::Named("KeyA2".into())))),
+                                f("t", 3, false, AType::Map(Box::new(ext("KeyB")), Box::new(ext("Choice")))),
+                                f("u", 4, true, AType::Set(Box::new(ext("KeyS2")))),
+                                f("w", 5, false, AType::Vec(Box::new(AType::Named("Wrapped".into())))),
+                                f("x", 6, true, AType::Option(Box::new(ext("ByteShapes")))),
+                            ],
+                            fallback: None,
+                        }),
+                    ],
+                };
+                let text = Layout { r: &mut rng, wild: 0 }.render(&schema);
+                let mut resolver = MemoryResolver::new("s1".to_string(), Ok(text.clone()));
+                resolver.add("s0".to_string(), Ok(items[0].text.clone()));
+                let parser = Parser::parse(resolver);
+                out.eval();
+                let mut o = Options::new();
+                o.introspection = true;
+                let code = if parser.errors().is_empty() { Generator::new(&o, &parser).rust(&RustOptions::new()).ok().map(|c| c.module_content) } else { None };
+                if code.is_none() {
+                    out.inconclusive(format!("the second fixed shape schema was rejected: {:?}", parser.errors().iter().map(|e| format!("{:?}", e)).take(2).collect::<Vec<_>>()));
+                }
+                out.count("schemas_with_imports", 1);
+                items.push(Item { idx, schema, text, gen_code: code });
+                continue;
+            }
             let cfg = GenCfg { valid: true, hostile_docs: true, max_defs: 6, comments: rng.bool(), attrs: false, plain_types_only: true };
             let mut g = SchemaGen::new(&mut rng, cfg);
             let name = format!("s{}", idx);
@@ -424,6 +479,16 @@ impl C16 {
                     }
                     let types: Vec<String> = it.schema.defs.iter().filter(|d| matches!(d, ADef::Struct(_) | ADef::Enum(_) | ADef::Newtype { .. })).map(|d| d.name().to_string()).collect();
                     if !types.is_empty() {
+                        // imported newtypes over key types can be keys here as well
+                        let world: Vec<&ASchema> = items.iter().map(|i| &i.schema).collect();
+                        let env = Env { schema: &it.schema, world: &world };
+                        for d in &it.schema.defs {
+                            if let ADef::Newtype { name, .. } = d {
+                                if crate::schema::conform::resolves_to_key(&env, &crate::schema::gen::AType::Named(name.clone())) {
+                                    g.ext_key_types.push((it.schema.name.clone(), name.clone()));
+                                }
+                            }
+                        }
                         importable.push((it.schema.name.clone(), types));
                     }
                 }
@@ -632,7 +697,9 @@ impl C16 {
                 (None, _) => out.inconclusive("the runner did not report on every vector"),
                 (Some((st, payload)), Some(nf)) => {
                     out.count("conforming_vectors", 1);
-                    if st != "ok" {
+                    if st != "ok" && payload.starts_with("BYVALUE") {
+                        out.violation("by-value-serialization-differs", format!("type {}: serializing the decoded value by value and by reference give different results ({}) for {}", v.key, payload, v.what), replay);
+                    } else if st != "ok" {
                         out.violation("conforming-value-rejected", format!("type {} rejects a value that conforms to its schema type ({}): {}", v.key, payload, v.what), replay);
                     } else {
                         match rv::ref_skip(&unhex(payload)) {
